@@ -11,6 +11,7 @@ package main
 // started has exited and nothing touches the reader or the result slots.
 
 import (
+	"bytes"
 	"encoding/json"
 	"fmt"
 	"os"
@@ -19,9 +20,12 @@ import (
 	"runtime"
 	"sort"
 	"strings"
+	"sync"
 
 	"github.com/hattya/go.sh/interp"
 	"github.com/hattya/go.sh/parser"
+	"github.com/hattya/go.sh/pattern"
+	"github.com/hattya/go.sh/printer"
 )
 
 type lateReader struct {
@@ -497,6 +501,16 @@ func c06RacePass(w *W) {
 		if len(reports) == 1 && err != nil {
 			w.Violation("race-pass-failed", map[string]string{"GOMAXPROCS": procs}, fmt.Sprintf("race pass process failed: %v\n%s", err, tail(s, 600)))
 		}
+		for _, l := range strings.Split(s, "\n") {
+			if strings.HasPrefix(l, "RACEPASS-MISMATCH ") {
+				w.Violation("concurrent-calls-interfere", map[string]string{"GOMAXPROCS": procs, "pair": l}, "two calls running at the same time with their own arguments: "+l[len("RACEPASS-MISMATCH "):])
+			}
+		}
+		if k := strings.LastIndex(s, "RACEPASS pairs="); k >= 0 {
+			var n int64
+			fmt.Sscanf(s[k:], "RACEPASS pairs=%d", &n)
+			w.Count("race_pass_concurrent_pairs", n)
+		}
 		if k := strings.LastIndex(s, "RACEPASS runs="); k >= 0 {
 			var n int64
 			fmt.Sscanf(s[k:], "RACEPASS runs=%d", &n)
@@ -580,6 +594,78 @@ func racePassMain() {
 	for i := 0; i < 200 && runtime.NumGoroutine() > 2; i++ {
 		runtime.Gosched()
 	}
+	// two calls at the same time, each with its own arguments: the results are a function of the arguments alone,
+	// and the detector sees any state the two calls share (package-level buffers, caches)
+	bodies := map[string]func(*bool) string{}
+	var names []string
+	for _, src := range []string{"a b\n", "a | b && c\n", "cat <<E\nx\nE\n", "a $(b `c`) d\n", "if a; then b; fi\n", "a 'q' \"$v\" ${v:-w}\n", "for x in a; do b; done # c\n", "x=1 a >f\n"} {
+		bodies["ParseCommands "+src] = c06ParseBody(src, nil)
+		names = append(names, "ParseCommands "+src)
+	}
+	for _, src := range []string{"1 + 2 * 3", "x = 7", "x++ + z", "(x += 2) * 010", "z = x ? 0x1F : 2", "- - 1"} {
+		bodies["Eval "+src] = c06EvalBody(src)
+		names = append(names, "Eval "+src)
+	}
+	for _, t := range [][2]string{{"a*b", "aXbYb"}, {"[!a-c]?", "xyz"}, {"\\*", "*a"}} {
+		t := t
+		n := "Match " + t[0] + " " + t[1]
+		bodies[n] = func(*bool) string {
+			m, err := pattern.Match([]string{t[0]}, pattern.Prefix|pattern.Largest, t[1])
+			return fmt.Sprintf("%q %v", m, err)
+		}
+		names = append(names, n)
+	}
+	for _, src := range []string{"${v:-a b}$x", "\"$@\"x", "$((x+1))~"} {
+		src := src
+		n := "Expand " + src
+		bodies[n] = func(*bool) string {
+			wd, err := c13Parse(src)
+			if err != nil {
+				return "parse: " + err.Error()
+			}
+			env := interp.NewExecEnv("sh", "p q", "r")
+			env.Set("x", "5")
+			f, err := env.Expand(wd, 0)
+			return fmt.Sprintf("%q %v", f, err)
+		}
+		names = append(names, n)
+	}
+	for _, src := range []string{"if a; then b <<E\nx\nE\nfi\n", "a | b && c &\n"} {
+		src := src
+		n := "Fprint " + src
+		bodies[n] = func(*bool) string {
+			cmds, _, err := parser.ParseCommands(nil, "t", src)
+			if err != nil || len(cmds) == 0 {
+				return "parse failed"
+			}
+			var b bytes.Buffer
+			err = printer.Fprint(&b, cmds[0])
+			return fmt.Sprintf("%q %v", b.String(), err)
+		}
+		names = append(names, n)
+	}
+	solo := map[string]string{}
+	for _, n := range names {
+		solo[n] = bodies[n](&dummy)
+	}
+	pairs := 0
+	for _, a := range names {
+		for _, b := range names {
+			var ra, rb string
+			start := make(chan struct{})
+			var wg sync.WaitGroup
+			wg.Add(2)
+			go func() { defer wg.Done(); <-start; d := false; ra = bodies[a](&d) }()
+			go func() { defer wg.Done(); <-start; d := false; rb = bodies[b](&d) }()
+			close(start)
+			wg.Wait()
+			pairs++
+			if ra != solo[a] || rb != solo[b] {
+				fmt.Printf("RACEPASS-MISMATCH %q alongside %q: %s / %s, alone: %s / %s\n", a, b, ra, rb, solo[a], solo[b])
+			}
+		}
+	}
+	fmt.Printf("RACEPASS pairs=%d\n", pairs)
 	fmt.Printf("RACEPASS runs=%d\n", runs)
 }
 
